@@ -26,8 +26,9 @@ func aliasedDoc(r *prng.R) interface{} {
 		"a":    shared,
 		"c":    map[string]interface{}{"a": shared, "b": sharedArr},
 		"arr":  sharedArr,
-		"nums": []interface{}{3.0, 1.0, 2.0, 1.0},
-		"strs": []interface{}{"b", "a", "c"},
+		// duplicates followed by new values: an in-place $distinct would shift them
+		"nums": []interface{}{3.0, 3.0, 1.0, 2.0, 1.0, 4.0},
+		"strs": []interface{}{"b", "b", "a", "c"},
 		"nul":  nil,
 		"e":    map[string]interface{}{},
 		"holes": []interface{}{map[string]interface{}{}, map[string]interface{}{"k": "x"}, map[string]interface{}{}, []interface{}{}},
@@ -237,7 +238,7 @@ func (g *c07Gen) transformProgram() jast.Node {
 }
 
 func regValue() map[string]interface{} {
-	return map[string]interface{}{"list": []interface{}{2.0, 3.0, 1.0}, "k": "x", "v": 7.0, "o": map[string]interface{}{"k": "x"}}
+	return map[string]interface{}{"list": []interface{}{2.0, 2.0, 3.0, 1.0}, "k": "x", "v": 7.0, "o": map[string]interface{}{"k": "x"}}
 }
 
 func c07Run(r *fw.Rec, tree jast.Node, prog string, doc interface{}, tag string, useModel bool) {
